@@ -146,6 +146,10 @@ def _call(src, q, r, w, A, env, net, state, level, tag, scripted, draws, ndraws0
         r.lastobs_rows0 = tensor_rows(env.last_obs.tensor)
         r.cur_obj0, r.lastobs_obj0 = env.current_state, env.last_obs
     r.lim = None
+    if q.get('bound_first') and env is not None:
+        with stubs.sut():
+            env.get_score_upper_bound()
+            env.get_minimum_hops()
     if q.get('goal_query') and env is not None:
         with stubs.sut():
             r.goal_cur = env.goal_reached()
